@@ -209,6 +209,10 @@ class Hooks:
     def isinstance(self, interp, obj, classes):
         return NotImplemented
 
+    def global_name(self, interp, name, fi):
+        """Override the meaning of a module-level name (e.g. a tableau module replaced by symbolic entries)."""
+        return NotImplemented
+
 
 class Interp:
     def __init__(self, model, hooks=None):
@@ -258,6 +262,9 @@ class Interp:
                 return e[name]
             e = e.get("__parent_env__")
         mod = fi.module
+        g = self.hooks.global_name(self, name, fi)
+        if g is not NotImplemented:
+            return g
         v = self.module_value(mod, name, node, fi)
         if v is not NotImplemented:
             return v
